@@ -12,6 +12,8 @@ from tiv.mutate import M
 from tiv.sem import trace, expand, cx, econds, specialize
 
 RULES = {
+    "MEMO": "memo safety (shared, rules/common.py): a memoised function in this property's files (or called from them) is a function of its "
+            "arguments only (no terminal/ambient/receiver state outside the key) and no caller mutates its result in place",
     "R1": "rows() announces what render() produces: for a flow widget both derive the height from the same inputs by the same decision "
           "(FIT -> _valid_size(width)[1]; otherwise the ORIGINAL size if it fits inside the FIT size on both axes, else the FIT size)",
     "R2": "row assembly: in the text branch of UrwidImageCanvas.content each image row is [left padding, recovered first colour, image cells, "
@@ -178,6 +180,9 @@ def run(ck, m):
             ck.ob("R3", enclosing_stmt(c), ok, f"content: {kind} padding, {what}; found near=`{norm(gn)[:50]}`, far=`{norm(gf)[:50]}`", stmt=f"content: {kind} split [{sorted(facts.items())}]")
     from rules.c05 import rule_format_render
     rule_format_render(ck, m, "R3")
+
+    from rules.common import rule_memo_safety
+    rule_memo_safety(ck, m, "MEMO", "C17")
 
 
 MUTANTS = [
